@@ -4,6 +4,7 @@ Tie: the model is the one validated against run() by C01/C02/C05; here the imple
 checked metamorphically: permuted rows, shuffled columns, DataFrame and CSV form."""
 import itertools
 import os
+import re
 import sys
 sys.path.insert(0, os.path.join(os.path.dirname(os.path.abspath(__file__)), '..'))
 import vlib
@@ -149,6 +150,13 @@ def corpus_stream(ck, q):
                 continue
             script = str(r.get('script'))
             if 'current_date' in script or 'random' in script:
+                continue
+            if re.search(r'\bover\s*\(', script):
+                # an analytic invocation is a function of the SET of datapoints only when its ordering is total on every partition
+                # (Props/C06 `analytic_perm` vs `ties_counter`); the corpus orders by one identifier of several, so its results are
+                # not determined by VTL.  Order independence of analytic functions is decided by C06 on inputs with total orders.
+                hist['skip:analytic-ordering-not-total'] = hist.get('skip:analytic-ordering-not-total', 0) + 1
+                ck.count(None, nontrivial=False)
                 continue
             nontrivial = base[0] == 'ok' and any((x[0] == 'ds' and x[2]) for x in base[1].values())
             ck.count(('corpus', r['id']), nontrivial=nontrivial, n=2)
